@@ -1,3 +1,334 @@
 package main
 
-func checkMain(args []string) {}
+// govc check -prop Cxx -tier quick|thorough : the registered check of one property.
+
+import (
+	"bufio"
+	"encoding/json"
+	"flag"
+	"fmt"
+	"os"
+	"path/filepath"
+	"sort"
+	"strings"
+	"time"
+)
+
+type knownFinding struct {
+	Prop, Obligation, Text string
+}
+
+func loadKnownFindings(path string) []knownFinding {
+	f, err := os.Open(path)
+	if err != nil {
+		return nil
+	}
+	defer f.Close()
+	var out []knownFinding
+	sc := bufio.NewScanner(f)
+	for sc.Scan() {
+		l := strings.TrimSpace(sc.Text())
+		if !strings.HasPrefix(l, "finding:") {
+			continue
+		}
+		kf := knownFinding{Text: l}
+		for _, w := range strings.Fields(l) {
+			if strings.HasPrefix(w, "property=") {
+				kf.Prop = strings.TrimPrefix(w, "property=")
+			}
+			if strings.HasPrefix(w, "obligation=") {
+				kf.Obligation = strings.TrimPrefix(w, "obligation=")
+			}
+		}
+		out = append(out, kf)
+	}
+	return out
+}
+
+func hasProp(props []string, p string) bool {
+	for _, x := range props {
+		if x == p {
+			return true
+		}
+	}
+	return false
+}
+
+// which obligations of a function result belong to property p
+func selectObligations(r *FnResult, p string) []*Obligation {
+	var out []*Obligation
+	fnHas := hasProp(r.Props, p)
+	for _, ob := range r.Obs {
+		switch {
+		case strings.HasPrefix(ob.Kind, "safe:") || ob.Kind == "variant":
+			if p == "C05" {
+				out = append(out, ob)
+			}
+		case ob.Kind == "frame":
+			if p == "C06" || p == "C18" {
+				out = append(out, ob)
+			}
+		case ob.Kind == "pre@call":
+			if p == "C05" || fnHas {
+				out = append(out, ob)
+			}
+		default: // post, inv-init, inv-pres, lemma, canary, cover
+			if fnHas || hasProp(ob.Props, p) {
+				out = append(out, ob)
+			}
+		}
+	}
+	return out
+}
+
+type obRecord struct {
+	Name   string  `json:"name"`
+	Kind   string  `json:"kind"`
+	Func   string  `json:"func"`
+	Status string  `json:"status"`
+	Solver string  `json:"solver"`
+	TimeS  float64 `json:"time_s"`
+	Cross  string  `json:"cross_checked_by,omitempty"`
+}
+
+func checkMain(args []string) {
+	fs := flag.NewFlagSet("check", flag.ExitOnError)
+	repo := fs.String("repo", "/repo", "repository")
+	prop := fs.String("prop", "", "property id")
+	tier := fs.String("tier", "quick", "quick|thorough")
+	verif := fs.String("verif", "/verif", "verif directory")
+	fs.Parse(args)
+	t0 := time.Now()
+	outDir := filepath.Join(*verif, "out", *prop)
+	os.RemoveAll(outDir)
+	os.MkdirAll(outDir, 0o755)
+	replayDir := filepath.Join(*verif, "replays", *prop)
+	os.MkdirAll(replayDir, 0o755)
+	seed := 0
+	fmt.Sscan(os.Getenv("VERIF_SEED"), &seed)
+
+	eng, err := loadEngine(*repo)
+	if err != nil {
+		fmt.Fprintln(os.Stderr, "load:", err)
+		// the tree does not load: cannot decide anything
+		fmt.Printf("CHECK-BROKEN property=%s cannot load /repo: %v\n", *prop, err)
+		os.Exit(2)
+	}
+	loadS := time.Since(t0).Seconds()
+	var results []*FnResult
+	for _, fn := range eng.targets() {
+		results = append(results, eng.verifyFunc(fn))
+	}
+	for _, l := range eng.contracts.Lemmas {
+		results = append(results, eng.verifyLemma(l))
+	}
+	genS := time.Since(t0).Seconds() - loadS
+
+	type sel struct {
+		r  *FnResult
+		ob *Obligation
+	}
+	var sels []sel
+	var jobs []*job
+	funcs := map[string]bool{}
+	trusted := map[string]bool{}
+	assumptions := map[string]bool{}
+	uncontr := map[string]bool{}
+	bounded := map[string]bool{}
+	var unsupported []string
+	for _, r := range results {
+		obs := selectObligations(r, *prop)
+		relevant := len(obs) > 0 || hasProp(r.Props, *prop)
+		if !relevant {
+			continue
+		}
+		if r.Unsupported != "" && hasProp(r.Props, *prop) && !strings.Contains(r.Unsupported, "trusted") {
+			unsupported = append(unsupported, r.Name+": "+r.Unsupported)
+		}
+		if r.Unsupported != "" && strings.Contains(r.Unsupported, "trusted") && hasProp(r.Props, *prop) {
+			trusted["contract of "+r.Name+" is assumed (marked trusted), its body is not verified"] = true
+		}
+		if len(obs) == 0 {
+			continue
+		}
+		funcs[r.Name] = true
+		for _, t := range r.Trusted {
+			trusted[t] = true
+		}
+		for _, a := range r.Assumptions {
+			assumptions[a] = true
+		}
+		for _, u := range r.Uncontr {
+			uncontr[u] = true
+		}
+		for _, b := range r.Bounded {
+			bounded[b] = true
+		}
+		for _, ob := range obs {
+			j := &job{ob: ob, path: obFile(outDir, r.Name+"__"+ob.Name)}
+			jobs = append(jobs, j)
+			sels = append(sels, sel{r, ob})
+		}
+	}
+	timeout := 10
+	cross := false
+	if *tier == "thorough" {
+		timeout = 60
+		cross = true
+	}
+	solveAll(jobs, timeout, cross, 16)
+
+	known := loadKnownFindings(filepath.Join(*verif, "KNOWN_FINDINGS.txt"))
+	lock := loadLock(filepath.Join(*verif, "obligations.lock"), *prop)
+	violations := 0
+	broken := 0
+	var recs []obRecord
+	var solverTime float64
+	nOb, nDis, nCanary, nCanaryOK := 0, 0, 0, 0
+	bySolver := map[string]int{}
+	seen := map[string]bool{}
+	var samples []map[string]any
+	for _, j := range jobs {
+		ob := j.ob
+		full := ob.Func + "::" + ob.Name
+		if ob.Func == "lemma" {
+			full = ob.Name
+		}
+		seen[full] = true
+		solverTime += j.res.TimeS
+		recs = append(recs, obRecord{Name: full, Kind: ob.Kind, Func: ob.Func, Status: j.res.Status, Solver: j.res.Solver, TimeS: j.res.TimeS, Cross: j.res.Cross})
+		if ob.MustSat {
+			nCanary++
+			if j.res.Status == "unsat" {
+				fmt.Printf("CHECK-BROKEN property=%s vacuity guard %s was discharged (must be satisfiable): contradictory assumptions?\n", *prop, full)
+				broken++
+			} else {
+				nCanaryOK++
+			}
+			continue
+		}
+		nOb++
+		if j.res.Status == "unsat" {
+			nDis++
+			bySolver[j.res.Solver]++
+			if len(samples) < 3 && j.res.Solver != "trivial" && (ob.Kind == "post" || ob.Kind == "lemma" || ob.Kind == "inv-pres" || strings.HasPrefix(ob.Kind, "safe")) {
+				samples = append(samples, map[string]any{"obligation": full, "kind": ob.Kind, "text": ob.Text, "pos": ob.Pos, "solver": j.res.Solver, "time_s": j.res.TimeS, "smt_file": j.path})
+			}
+			continue
+		}
+		// not discharged
+		isKnown := false
+		for _, k := range known {
+			if k.Prop == *prop && k.Obligation == full {
+				fmt.Printf("KNOWN-FINDING: property=%s %s\n", *prop, k.Text)
+				isKnown = true
+			}
+		}
+		if isKnown {
+			nOb-- // a listed finding is neither counted as an obligation nor as discharged
+			continue
+		}
+		rp := filepath.Join(replayDir, sanitize(full)+".json")
+		writeReplay(rp, *prop, full, ob, j)
+		suffix := " no-failing-input-found"
+		fmt.Printf("VIOLATION property=%s replay=%s%s\n", *prop, rp, suffix)
+		fmt.Printf("  obligation %s (%s) not discharged: %s by %s; %s\n", full, ob.Kind, j.res.Status, j.res.Solver, ob.Pos)
+		violations++
+	}
+	for _, u := range unsupported {
+		rp := filepath.Join(replayDir, sanitize("unsupported_"+u)+".json")
+		os.WriteFile(rp, []byte(fmt.Sprintf("{\"property\":%q,\"reason\":%q}\n", *prop, "function left the subset the VC generator handles: "+u)), 0o644)
+		fmt.Printf("VIOLATION property=%s replay=%s no-failing-input-found\n", *prop, rp)
+		fmt.Printf("  function under contract can no longer be verified: %s\n", u)
+		violations++
+	}
+	// locked contract obligations that disappeared
+	for _, name := range lock {
+		if !seen[name] {
+			rp := filepath.Join(replayDir, sanitize("missing_"+name)+".json")
+			os.WriteFile(rp, []byte(fmt.Sprintf("{\"property\":%q,\"obligation\":%q,\"reason\":\"obligation discharged on the reference tree is no longer generated (function or contract clause gone)\"}\n", *prop, name)), 0o644)
+			fmt.Printf("VIOLATION property=%s replay=%s no-failing-input-found\n", *prop, rp)
+			fmt.Printf("  obligation %s is no longer generated\n", name)
+			violations++
+		}
+	}
+	if nOb == 0 {
+		fmt.Printf("CHECK-BROKEN property=%s no obligations generated\n", *prop)
+		broken++
+	}
+	sort.Slice(recs, func(i, j int) bool { return recs[i].Name < recs[j].Name })
+	ev := map[string]any{
+		"property_id": *prop,
+		"tier":        *tier,
+		"seed":        seed,
+		"level":       "proof",
+		"wall_s":      time.Since(t0).Seconds(),
+		"violations":  violations,
+		"assumptions": append(sortedSet(assumptions), "the VC generator (govc) itself is unverified; see DESIGN.md §9"),
+		"coverage": map[string]any{
+			"obligations":            nOb,
+			"discharged":             nDis,
+			"checker_cmd":            fmt.Sprintf("/verif/bin/govc check -prop %s -tier %s  (go/ssa VC generation over /repo's working tree with -tags verif; z3-new 5.1.0, z3 4.8.12, cvc5 1.0.3 raced per obligation, %ds timeout)", *prop, *tier, timeout),
+			"trusted_base":           sortedSet(trusted),
+			"functions_under_contract": sortedSet(funcs),
+			"discharged_by_backend":  bySolver,
+			"solver_time_s":          solverTime,
+			"load_s":                 loadS,
+			"vcgen_s":                genS,
+			"vacuity_guards":         map[string]int{"canaries_and_covers": nCanary, "satisfiable_as_required": nCanaryOK},
+			"uncontracted_callees_havoced": sortedSet(uncontr),
+			"bounded_standins":       sortedSet(bounded),
+			"contract_files":         eng.contracts.Files,
+			"assumption_scan":        eng.contracts.Scan,
+			"samples":                samples,
+			"per_obligation":         recs,
+			"locked_obligations":     len(lock),
+		},
+	}
+	b, _ := json.MarshalIndent(ev, "", " ")
+	os.MkdirAll(filepath.Join(*verif, "evidence"), 0o755)
+	os.WriteFile(filepath.Join(*verif, "evidence", *prop+".json"), b, 0o644)
+	fmt.Printf("property=%s tier=%s functions=%d obligations=%d discharged=%d guards=%d/%d violations=%d wall=%.1fs\n", *prop, *tier, len(funcs), nOb, nDis, nCanaryOK, nCanary, violations, time.Since(t0).Seconds())
+	if broken > 0 {
+		os.Exit(2)
+	}
+	if violations > 0 {
+		os.Exit(1)
+	}
+}
+
+func writeReplay(path, prop, full string, ob *Obligation, j *job) {
+	m := map[string]any{
+		"property":      prop,
+		"obligation":    full,
+		"kind":          ob.Kind,
+		"text":          ob.Text,
+		"position":      ob.Pos,
+		"status":        j.res.Status,
+		"solver":        j.res.Solver,
+		"solver_output": j.res.Output,
+		"smt_file":      j.path,
+		"replay":        "no failing input was constructed; re-run the solver on smt_file to reproduce the undischarged obligation",
+	}
+	b, _ := json.MarshalIndent(m, "", " ")
+	os.WriteFile(path, b, 0o644)
+}
+
+// obligations.lock: lines "<prop> <obligation full name>"
+func loadLock(path, prop string) []string {
+	f, err := os.Open(path)
+	if err != nil {
+		return nil
+	}
+	defer f.Close()
+	var out []string
+	sc := bufio.NewScanner(f)
+	sc.Buffer(make([]byte, 1<<20), 1<<20)
+	for sc.Scan() {
+		l := sc.Text()
+		if strings.HasPrefix(l, prop+" ") {
+			out = append(out, strings.TrimPrefix(l, prop+" "))
+		}
+	}
+	return out
+}
